@@ -917,6 +917,14 @@ func (pt *prattTables) checkRegexFlag(c *Ctx, r *Result, rule string) {
 		}
 		if callee == nil && !ci.Common().IsInvoke() {
 			if _, isB := ci.Common().Value.(*ssa.Builtin); !isB {
+				// a call through the parser's binding-power field only reads the table
+				if ld, isLd := ci.Common().Value.(*ssa.UnOp); isLd && ld.Op == token.MUL {
+					if fa, isFA := ld.X.(*ssa.FieldAddr); isFA {
+						if st, isSt := deref(fa.X.Type()).Underlying().(*types.Struct); isSt && pt.bpNames[st.Field(fa.Field).Name()] {
+							return "", false
+						}
+					}
+				}
 				return "H", true // nud/led dispatch
 			}
 		}
